@@ -666,6 +666,16 @@ func (p *Parser) parseBuffer(buf []byte, last bool) (err error) {
 			_ = p.add(v, off)
 			p.mode = valueMap
 		case charErr:
+			if 256 < len(p.mode) && p.mode[256] == 't' {
+				// A token read byte by byte ends here just as it does when it is
+				// scanned in one go, the byte is looked at again after the token.
+				p.addToken(off)
+				off--
+				if p.OnlyOne {
+					continue
+				}
+				break // out of the switch, a value at depth zero is a complete document
+			}
 			return p.byteError(off, p.mode, b, bytes.Runes(buf[off:])[0])
 		}
 		if depth == 0 && 256 < len(p.mode) && p.mode[256] == 'v' {
